@@ -178,17 +178,31 @@ prop('C08', level='proof',
                  'maximal runs of length >= m; no False -> True; m <= 1 identity; m > n clears; idempotence; monotonicity. Ends are '
                  'treated like the interior because no clause of minrun mentions them. The bounded job is a cross-check only.')
 
+MIRROR = 'vlemma.relations.mirror_pair'
 prop('C09', level='other',
-     units=[F + 'shape.compute_shape_features', DF + 'rename_extrema_df', F + 'burst.compute_amp_consistency',
+     units=[MIRROR, F + 'shape.compute_shape_features', DF + 'rename_extrema_df', F + 'burst.compute_amp_consistency',
             F + 'burst.compute_monotonicity', F + 'burst.compute_burst_fraction', F + 'burst.compute_burst_features', CF],
+     lemmas=['minrun_monotone'],
      jobs=['mirror', 'burst_features_small'],
-     trusted=[EXTERNAL['amp'], EXTERNAL['dual']],
-     explanation='The contracts tie BOTH centrings to one spec read against the original signal: the trough-centred table is proved '
-                 'to be the documented function of the cyclepoints of -x found by the peak pipeline, renamed / negated / one-minus '
-                 '(compute_shape_features[trough], rename_extrema_df), and every centring-dependent branch of the burst features is '
-                 'proved against the per-centring spec (C05, C07). The mirror statement itself (two runs compared) is checked on '
-                 'the corpus with exact comparison (bounded job mirror); a lemma-level proof of the relation between the two '
-                 'per-centring specs is not yet built.')
+     unit_jobs={MIRROR: ['mirror']},
+     trusted=[EXTERNAL['amp'], EXTERNAL['dual'] + '; assumed even in the sign of the signal (it thresholds the analytic band amplitude)'],
+     assumptions=['determinism of the cyclepoint search: the trough-centred analysis of x and the peak-centred analysis of -x hand the '
+                  'same array (-x) and the same options to compute_cyclepoints, so their six sample columns coincide up to the '
+                  'peak/trough renaming (definitional clause of the lemma harness, where both tables exist)',
+                  'sequence algebra: negation commutes with slicing and differencing and flips comparison with 0; Series.rank '
+                  'depends on the first n entries only'],
+     explanation='Lemma over the contracts of compute_features (vlemma/relations.py: a harness that only calls compute_features for '
+                 '(x, trough) and (-x, peak); both calls are replaced by the 82-case CONTRACT that C01 / C04 - C07 prove against the '
+                 'code): given equal cyclepoints, the two tables have the same number of rows and every column of the trough-centred '
+                 'table is the mirror image of the peak-centred one - time_peak / time_trough, time_rise / time_decay, volt_rise / '
+                 'volt_decay swapped, extremum voltages negated, time_rdsym and time_ptsym replaced by one minus themselves (x / (x + y) = '
+                 '1 - y / (x + y) over the extended reals), period, volt_amp, band_amp, amp_fraction (rank), amp_consistency (min/max '
+                 'ratios are symmetric), period_consistency, monotonicity (rising steps of -x are falling steps of x), burst_fraction '
+                 'equal, and is_burst identical (the qualifying masks are equal, hence their minimum-run filter) - for both burst '
+                 'methods, with and without threshold / burst option dictionaries (6 typed cases, explicit-instance proof script). '
+                 'The per-centring contracts themselves are proved against the code (compute_shape_features[trough], '
+                 'rename_extrema_df, the centring-dependent branches of the burst features). Bounded: the two-run comparison on the '
+                 'corpus with exact equality (job mirror), which also exercises the determinism assumption.')
 
 prop('C10', level='other',
      units=[CF],
